@@ -37,7 +37,14 @@ func main() {
 			c14.Run(*out)
 		}
 	case "rd":
-		cr.Run(*out, *mode)
+		switch *mode {
+		case "faults":
+			cr.RunFaults(*out)
+		case "cuts":
+			cr.RunCuts(*out)
+		default:
+			cr.Run(*out, *mode)
+		}
 	case "wr":
 		cw.RunRB(*out, *out2, *mode)
 	case "c17":
